@@ -21,11 +21,12 @@ macro_rules! cont {
         }
     };
 }
-cont!(q_h07cont__udta_24b, UdtaBox, 24, 6);
-cont!(q_h07cont__edts_24b, EdtsBox, 24, 6);
-cont!(q_h07cont__dinf_24b, DinfBox, 24, 6);
+cont!(q_h07cont__mvex_24b, MvexBox, 24, 6);
+cont!(q_h07cont__edts_24b, EdtsBox, 24, 6); // no loop in edts: one child, passes
 cont!(t_h07cont__mvex_32b, MvexBox, 32, 7);
-cont!(t_h07cont__traf_32b, TrafBox, 32, 7);
+cont!(x_h07cont__udta_24b, UdtaBox, 24, 6); // does not finish: the meta child decoder runs inside
+cont!(x_h07cont__dinf_24b, DinfBox, 24, 6); // does not finish: dref/url run inside
+cont!(x_h07cont__traf_32b, TrafBox, 32, 7);
 
 /// Lookups: the intra-chunk loop of sample_offset must be bounded by the table sizes, not by field
 /// values. One run, constant sample size, S chunk offsets; samples_per_chunk and k symbolic.
